@@ -9,6 +9,7 @@ import (
 	"time"
 
 	"github.com/lightninglabs/lightning-node-connect/gbn"
+	"github.com/lightninglabs/lightning-node-connect/mailbox"
 )
 
 // synCase: a raw client presents SYN N to a real server handshake.
@@ -235,6 +236,29 @@ func TestC07(t *testing.T) {
 		}
 		msgBytesCase(r, 0, nil, b, "msg-random")
 	}
+	// the JSON envelope of the websocket transport: every string of up to five tokens over an
+	// alphabet of the envelope's own building blocks (so also "}" in front of an opening and no "}" behind it)
+	toks := []string{`{"result":`, `{"error":`, `}`, `{`, `"`, `x`, ` `, `}}`, `{"result":{"msg":"QUJD"}}`}
+	var walk func(prefix string, depth int)
+	walk = func(prefix string, depth int) {
+		var out string
+		p, msg := safely(func() {
+			res, err := mailbox.VStripJSONWrapper(prefix)
+			out = fmt.Sprintf("%q/%v", res, err != nil)
+		})
+		if p {
+			r.Violate("C07/json-wrapper-panic", fmt.Sprintf("stripJSONWrapper(%q) panicked: %s", prefix, msg), prefix)
+			out = "panic"
+		}
+		r.Case("json:"+prefix, depth > 0, "json-wrapper/"+out[len(out)-4:])
+		if depth == pick(4, 5) {
+			return
+		}
+		for _, tk := range toks {
+			walk(prefix+tk, depth+1)
+		}
+	}
+	walk("", 0)
 	// every length prefix around the boundaries of the integer types the length check could be done in
 	var claims []uint64
 	for _, c := range []uint64{0, 0xff, 0x100, 0xffff, 0x10000, 0xffffff, 0x1000000, 0x7fffffff, 0x80000000, 0xffffffff} {
